@@ -3,9 +3,8 @@ package server
 // C07 — peering sessions follow the RFC 4271 state machine, timers included.
 //
 // Fault enumeration over bounded event sequences in virtual time: every sequence of up to three
-// events of the 33-symbol alphabet applied to a passive peer that sits in Active, plus the
-// sequences from the other start states (Idle with a running idle-hold, OpenSent, OpenConfirm,
-// Established), PRNG walks of 4-12 events over random configurations, and the active-peer /
+// events of the 33-symbol alphabet applied to a passive peer from each of the start states Active,
+// Idle (idle-hold running), OpenSent, OpenConfirm and Established, PRNG walks of 4-12 events over random configurations, and the active-peer /
 // connection-collision scenarios (c07_collision_test.go). Oracle: c07Model (c07_model_test.go).
 
 import (
@@ -69,52 +68,29 @@ func c07SeqOf(i int) []c07Ev {
 	}
 }
 
-// layout of the case indices of a tier
+// layout of the case indices of a tier: the exhaustive blocks are the same in both tiers
 type c07Layout struct {
-	lenActive, lenOther int
-	slice3              int // quick: every slice3-th length-3 sequence of the non-Active start states is run as well
-	walks               int
+	maxLen int // all sequences up to this length from every start state
+	walks  int
 }
 
 func c07TierLayout() c07Layout {
 	if vlib.Thorough() {
-		return c07Layout{lenActive: 3, lenOther: 3, walks: 300000}
+		return c07Layout{maxLen: 3, walks: 300000}
 	}
-	return c07Layout{lenActive: 3, lenOther: 3, walks: 4000}
+	return c07Layout{maxLen: 3, walks: 4000}
 }
 
 func (l c07Layout) total() int {
-	t := c07SeqCount(l.lenActive) + (len(c07Starts)-1)*c07SeqCount(l.lenOther)
-	if l.slice3 > 0 {
-		t += (len(c07Starts) - 1) * (c07Pow(c07N, 3) / l.slice3)
-	}
-	return t + l.walks + c07CollisionCases()
+	return len(c07Starts)*c07SeqCount(l.maxLen) + l.walks + c07CollisionCases()
 }
 
 func (l c07Layout) decode(idx int) c07Case {
-	if n := c07SeqCount(l.lenActive); idx < n {
-		return c07Case{kind: "exh", start: 0, seq: c07SeqOf(idx)}
-	} else {
-		idx -= n
+	n := c07SeqCount(l.maxLen)
+	if idx < len(c07Starts)*n {
+		return c07Case{kind: "exh", start: idx / n, seq: c07SeqOf(idx % n)}
 	}
-	for s := 1; s < len(c07Starts); s++ {
-		if n := c07SeqCount(l.lenOther); idx < n {
-			return c07Case{kind: "exh", start: s, seq: c07SeqOf(idx)}
-		} else {
-			idx -= n
-		}
-	}
-	if l.slice3 > 0 {
-		per := c07Pow(c07N, 3) / l.slice3
-		for s := 1; s < len(c07Starts); s++ {
-			if idx < per {
-				// a PRNG-selected member of each block of slice3 consecutive length-3 sequences
-				r := vlib.CaseRand("c07slice", s*1000003+idx)
-				return c07Case{kind: "exh", start: s, seq: c07SeqOf(c07SeqCount(2) + idx*l.slice3 + r.IntN(l.slice3))}
-			}
-			idx -= per
-		}
-	}
+	idx -= len(c07Starts) * n
 	if idx < l.walks {
 		return c07Case{kind: "walk", sub: idx}
 	}
